@@ -260,8 +260,15 @@ Definition write_back (g : graph) (v : vals) : graph :=
   with_steps g (map (fun s => set_chk_after (set_after s (fst (v (s_key s))) (snd (v (s_key s)))) false)
                     (g_steps g)).
 
+(* `first0`: the value of the driver's variable `first` in the first iteration (generated: after_first_round);
+   with True the first UPDATE_CHECK_AFTER writes (and so propagates from) every seed, changed or not *)
+Definition update_meta_after_from (first0 : bool) (g : graph) : option graph :=
+  match after_loop (S (length (g_steps g))) first0 g (vals_of g) (seed0 g) with
+  | Some v => Some (write_back g v)
+  | None => None
+  end.
 Definition update_meta_after (g : graph) : option graph :=
-  match after_loop (S (length (g_steps g))) true g (vals_of g) (seed0 g) with
+  match after_loop (S (length (g_steps g))) after_first_round g (vals_of g) (seed0 g) with
   | Some v => Some (write_back g v)
   | None => None
   end.
@@ -295,6 +302,12 @@ Definition update_meta_with (pol : merge_policy) (g : graph) : option graph :=
   | None => None
   end.
 Definition update_meta (g : graph) : option graph := update_meta_with safe_merge g.
+(* the same with a given first-round behaviour of the _update_meta_after driver *)
+Definition update_meta_from (first0 : bool) (g : graph) : option graph :=
+  match update_meta_after_from first0 (update_meta_safe g) with
+  | Some g' => Some (update_meta_ready g')
+  | None => None
+  end.
 
 (* ------------------------------------------------------------------------------------------ *)
 (* Dispatch                                                                                   *)
